@@ -8,7 +8,7 @@
 (* Values are chosen lazily at the step that consumes them (frame.given = "Free": TLC explores     *)
 (* all objects of the bounded domains DOMS) or taken from a given object (trace validation).       *)
 EXTENDS ProtoAst
-CONSTANT DOMS          \* [byte, char, short, three, int : sets of limb pairs; strs; alpha; counts; blobs; unrec]
+CONSTANT DOMS          \* [byte, char, short, three, int : sets of limb pairs; strs; alpha; counts; blobs; unrec; strict]
 WR == INSTANCE EoWriter WITH wbytes <- <<>>, san <- FALSE, outcome <- ""
 
 VARIABLES w,        \* [bytes, san]
@@ -125,7 +125,7 @@ StepField(i, f) ==
   THEN \* hardcoded: the constant is written whatever was passed; a named one is what the object holds
        LET f2 == IF i.name = "" THEN Rest(f) ELSE Bind(Rest(f), i.name, i.hard)
        IN  AfterWrite(WR!WApply(w, BasicCall(i, i.hard, IF i.len.k = "lit" THEN i.len.n ELSE -1)), f2)
-  ELSE \/ \E v \in FieldCands(i, f) : FieldWith(i, f, v)
+  ELSE \/ (~(DOMS.strict /\ i.optional /\ f.missing) /\ \E v \in FieldCands(i, f) : FieldWith(i, f, v))     \* strict: nothing present behind a missing optional
        \/ (IsFree(f.given) /\ MayBeNone(i, f) /\ FieldWith(i, f, NoneV))      \* (None kept out of the candidate set: TLC sets are homogeneous)
 
 \* <length>: the count is chosen here (Free) or derived from the referencing value (given); the later field honours it
@@ -148,7 +148,7 @@ LengthWith(i, f, n) ==       \* n: the referenced count, or None
       ELSE AfterWrite(WR!WApply(w, NumCall(i.type, L(n - i.offset))), fl)
 StepLength(i, f) ==
   IF IsFree(f.given)
-  THEN \/ \E n \in {m \in DOMS.counts : m - i.offset >= 0 /\ LLess(L(m - i.offset), Limit(i.type))} : LengthWith(i, f, n)
+  THEN \/ (~(DOMS.strict /\ i.optional /\ f.missing) /\ \E n \in {m \in DOMS.counts : m - i.offset >= 0 /\ LLess(L(m - i.offset), Limit(i.type))} : LengthWith(i, f, n))
        \/ (i.optional /\ LengthWith(i, f, NoneV))
   ELSE LengthWith(i, f, GivenCount(f, RefInstr(Tail(f.code), i.name)))
 
@@ -168,7 +168,7 @@ StepArray(i, f) ==
            mayAbsent == i.optional /\ (i.len.k # "ref" \/ absentOnly)
            counts == IF i.len.k = "ref" THEN {f.lens[i.len.ref].n} ELSE IF i.len.k = "lit" THEN {i.len.n} ELSE DOMS.counts
        IN  \/ (mayAbsent /\ Skip([Bind(f1, i.name, NoneV) EXCEPT !.missing = TRUE]))
-           \/ (~absentOnly /\ \E n \in counts :
+           \/ (~absentOnly /\ ~(DOMS.strict /\ i.optional /\ f.missing) /\ \E n \in counts :
                   IF i.optional /\ f.missing THEN Skip(Bind(f1, i.name, <<>>))          \* present but behind a missing optional: not written
                   ELSE Skip([Bind(f1, i.name, <<>>) EXCEPT !.code = ElemSteps(i, n) \o f1.code]))
   ELSE LET v == IF i.name \in DOMAIN f.given.o THEN f.given.o[i.name] ELSE NoneV
